@@ -55,6 +55,12 @@ def run(chk):
                 r_ = R.req("PUT", "/" + bk); chk.require(r_.status == 200, "c11:setup", "CreateBucket failed: %d %s %s alive=%s poll=%s log=%s trace=%s" % (r_.status, r_.code, getattr(r_, "error", ""), g.alive(), g.proc.poll(), g.log_tail(300), hk.trace()[-5:]) + " pid=%s ps=%s" % (g.proc.pid, os.popen("ps -eo pid,ppid,etimes,cmd | grep versitygw-verif | grep -v grep").read()))
                 # "-prever": the object under the key was stored before versioning was enabled (it is the null version)
                 prever = opname.endswith("-prever"); opname = opname[:-7] if prever else opname
+                # "-suspended": a null version from before versioning, a version with an id on top of it (current), versioning then suspended:
+                # the overwrite replaces the stored null version by the new null object and archives the current version
+                suspended = opname.endswith("-suspended"); opname = opname[:-10] if suspended else opname
+                nullw = 500000 + 2 * wid
+                if suspended:
+                    chk.require(R.req("PUT", path, body=body_of(nullw), headers=write_headers(nullw)).status == 200, "c11:setup", "PUT before versioning failed")
                 if versioned and not prever:
                     R.req("PUT", "/" + bk, query={"versioning": ""}, body=b"<VersioningConfiguration><Status>Enabled</Status></VersioningConfiguration>")
                 old, new = 2 * wid, 2 * wid + 1
@@ -66,6 +72,8 @@ def run(chk):
                     old_vid = r0_.headers.get("x-amz-version-id") or ("null" if prever else None)
                 if versioned and prever:
                     R.req("PUT", "/" + bk, query={"versioning": ""}, body=b"<VersioningConfiguration><Status>Enabled</Status></VersioningConfiguration>")
+                if suspended:
+                    R.req("PUT", "/" + bk, query={"versioning": ""}, body=b"<VersioningConfiguration><Status>Suspended</Status></VersioningConfiguration>")
                 uid = None
                 if opname.startswith("multipart") or opname.startswith("uploadpart"):
                     r0 = R.req("POST", path, query={"uploads": ""}, headers=write_headers(new)); uid = r0.xml().findtext("UploadId")
@@ -97,7 +105,7 @@ def run(chk):
                 if not crashed:
                     R.req("DELETE", path); return None
                 g.restart(); R = client()
-                row = {"config": label, "operation": opname + ("-prever" if prever else ""), "killed_at": site_, "request_answer": r.status}
+                row = {"config": label, "operation": opname + ("-prever" if prever else "") + ("-suspended" if suspended else ""), "killed_at": site_, "request_answer": r.status}
                 problems = []
                 # ---- (a) the key: complete previous or complete new state
                 if opname.startswith("uploadpart"):
@@ -130,7 +138,7 @@ def run(chk):
                         lv = R.req("GET", "/" + bk, query={"versions": "", "prefix": key})
                         ids = [x.findtext("VersionId") for x in list(lv.xml().findall("Version")) + list(lv.xml().findall("DeleteMarker"))] if lv.status == 200 and lv.xml() is not None else []
                         if len(ids) != len(set(ids)): problems.append("ListObjectVersions after the restart shows a version id twice: %r" % ids)
-                        if "null" in ids and not prever: problems.append("ListObjectVersions after the restart shows a null version although every write happened with versioning enabled: %r" % ids)
+                        if "null" in ids and not prever and not suspended: problems.append("ListObjectVersions after the restart shows a null version although every write happened with versioning enabled: %r" % ids)
                         latest = [x.findtext("VersionId") for x in list(lv.xml().findall("Version")) + list(lv.xml().findall("DeleteMarker")) if x.findtext("IsLatest") == "true"] if lv.status == 200 and lv.xml() is not None else []
                         if ids and len(latest) != 1: problems.append("ListObjectVersions after the restart flags %d entries as latest" % len(latest))
                     if versioned and existing and old_vid:
@@ -140,6 +148,13 @@ def run(chk):
                         if gv0.status != 200 or gv0.body != body_of(old) or not listed0:
                             problems.append("after the restart the version %s written before the %s (acknowledged) is %s: GET by its id answers %d %s, ListObjectVersions lists %r" % (
                                 old_vid, opname, "gone" if gv0.status != 200 else "altered" if gv0.body != body_of(old) else "not listed", gv0.status, gv0.code, ids))
+                        if suspended:
+                            # ---- (b0s) the null version: the one stored before versioning until the new object is published, the new object afterwards
+                            gn_ = R.req("GET", path, query={"versionId": "null"}); cn_ = classify(gn_)
+                            wantn = ("write", nullw) if state == "old" else ("write", new)
+                            if state in ("old", "new") and cn_ != wantn:
+                                problems.append("after the restart the key reads as the %s state but GET ?versionId=null answers %d %s %s; the null version is write %d" % (
+                                    "previous" if state == "old" else "new", gn_.status, gn_.code, cn_[:2], wantn[1]))
                         if opname == "delete-version" and site_ in PSTEP_OF:
                             row["pcase"] = (PSTEP_OF[site_], {"new": 2, "old": 1, "missing": 0}.get(state, 9), len(ids))
                         if opname == "delete" and site_ in VSTEP_OF:
@@ -219,7 +234,8 @@ def run(chk):
             wid = 0
             for opname, sites in (("put-new", PUT_SITES), ("put-overwrite", PUT_SITES), ("copy", PUT_SITES), ("multipart-new", CMU_SITES), ("multipart-overwrite", CMU_SITES),
                                   ("uploadpart-new", PART_SITES), ("uploadpart-again", PART_SITES), ("delete", DEL_SITES)) + (
-                                  (("put-overwrite-prever", PUT_SITES), ("multipart-overwrite-prever", CMU_SITES), ("delete-prever", DEL_SITES), ("delete-version", PART_SITES)) if versioned else ()):
+                                  (("put-overwrite-prever", PUT_SITES), ("multipart-overwrite-prever", CMU_SITES), ("delete-prever", DEL_SITES), ("delete-version", PART_SITES),
+                                   ("put-overwrite-suspended", PUT_SITES), ("multipart-overwrite-suspended", CMU_SITES)) if versioned else ()):
                 for s_ in sites:
                     wid += 1
                     row = scenario(opname, s_, wid)
